@@ -182,10 +182,43 @@ pub fn check_process(c: &ProcCase) -> CheckResult {
         let (rc, dkb, err) = timed(&dec, &[("KESTREL_PASSWORD", pd)], &sb.dir)?; if rc != 0 { return Err(format!("decrypting {} MiB failed: {}", mib, err)); }
         peaks.push((ekb, dkb));
     }
+    // the same file named in two spellings as input and output (what the tool then does with the data is not the
+    // point here): memory must still not depend on the size
+    let mut alias = Vec::new();
+    for mib in [1u64, c.mib] {
+        let f = std::fs::File::create(sb.path("alias.bin")).map_err(|e| e.to_string())?; f.set_len(mib << 20).map_err(|e| e.to_string())?; drop(f);
+        let (_rc, kb, _err) = timed(&["password", "encrypt", "alias.bin", "-o", "./alias.bin", "--env-pass"], &[("KESTREL_PASSWORD", "pw")], &sb.dir)?; alias.push(kb);
+    }
+    if alias[1] > alias[0] + 8192 { return Err(format!("peak resident memory grows with the file when input and output name the same file in two spellings: {} KB -> {} KB (1 MiB -> {} MiB)", alias[0], alias[1], c.mib)); }
     let ((e1, d1), (en, dn)) = (peaks[0], peaks[1]);
     if en > e1 + 8192 || dn > d1 + 8192 { return Err(format!("peak resident memory of the tool grows with the file: encrypt {} KB -> {} KB, decrypt {} KB -> {} KB (1 MiB -> {} MiB)", e1, en, d1, dn, c.mib)); }
     if en > 100 * 1024 || dn > 100 * 1024 { return Err(format!("peak resident memory above 100 MiB (encrypt {} KB, decrypt {} KB)", en, dn)); }
     ok(true, format!("process/{}MiB/{}", c.mib, if c.pass_mode { "pass" } else { "key" }))
+}
+
+/// How far ahead of its output does the tool read a regular file? Its stdout is a pipe nobody drains, so it blocks
+/// after the pipe buffer is full; /proc/<pid>/fdinfo then tells how much of the input it has consumed.
+#[derive(Clone, Debug, Serialize, Deserialize)]
+pub struct ReadAhead { pub decrypt: bool }
+pub fn check_read_ahead(c: &ReadAhead) -> CheckResult {
+    if !std::path::Path::new("/proc/self/fdinfo").exists() { return ok(false, "skipped:no-procfs"); }
+    let sb = crate::cli::Sandbox::new(); let size: u64 = 8 << 20;
+    let f = std::fs::File::create(sb.path("in.bin")).map_err(|e| e.to_string())?; f.set_len(size).map_err(|e| e.to_string())?; drop(f);
+    let input = if c.decrypt { let r = sb.cmd(&["password", "encrypt", "in.bin", "-o", "in.ktl", "--env-pass"]).env("KESTREL_PASSWORD", "pw").run(); if r.code != Some(0) { return Err(r.describe()); } "in.ktl" } else { "in.bin" };
+    let mut fds = [0i32; 2]; unsafe { libc::pipe2(fds.as_mut_ptr(), libc::O_CLOEXEC); }
+    let mut cmd = std::process::Command::new(crate::cli::kestrel_bin());
+    cmd.args(["password", if c.decrypt { "decrypt" } else { "encrypt" }, input, "--env-pass"]).env_clear().env("KESTREL_PASSWORD", "pw").current_dir(&sb.dir).stdin(std::process::Stdio::null()).stderr(std::process::Stdio::null()).stdout(unsafe { <std::process::Stdio as std::os::fd::FromRawFd>::from_raw_fd(fds[1]) });
+    let mut child = cmd.spawn().map_err(|e| e.to_string())?; drop(cmd);
+    // wait until the position stops moving (the tool is blocked on the full pipe)
+    let find_pos = |pid: u32| -> Option<u64> { for e in std::fs::read_dir(format!("/proc/{}/fd", pid)).ok()? { let e = e.ok()?; if std::fs::read_link(e.path()).ok().map(|t| t.ends_with(input)).unwrap_or(false) { let info = std::fs::read_to_string(format!("/proc/{}/fdinfo/{}", pid, e.file_name().to_string_lossy())).ok()?; return info.lines().find_map(|l| l.strip_prefix("pos:").and_then(|v| v.trim().parse().ok())); } } None };
+    let (mut last, mut stable) = (None, 0); let t0 = std::time::Instant::now();
+    while t0.elapsed().as_secs() < 20 && stable < 5 { std::thread::sleep(std::time::Duration::from_millis(100)); let p = find_pos(child.id()); if p.is_some() && p == last && p != Some(0) { stable += 1; } else { stable = 0; } last = p; }
+    let _ = child.kill(); let _ = child.wait(); unsafe { libc::close(fds[0]); }
+    let pos = last.ok_or("could not observe the input position of the tool")?;
+    // the pipe holds at most 64 KiB (1 MiB if enlarged) of output = about one record; the statement allows two further chunks of input
+    let bound = (1u64 << 20) / 4 + 4 * (CS as u64 + 32);
+    if pos > bound { return Err(format!("with its output blocked after about one chunk, the tool had already consumed {} bytes ({} chunks) of the input file; the streaming bound is a few chunks", pos, pos / CS as u64)); }
+    ok(true, format!("read-ahead/{}/{}chunks", if c.decrypt { "decrypt" } else { "encrypt" }, pos / CS as u64))
 }
 
 pub fn run(ctx: &Ctx) {
@@ -201,6 +234,7 @@ pub fn run(ctx: &Ctx) {
     ctx.sse_vec("data_after_final_chunk", "a complete file followed by 0 B .. 64 MiB of further input, both modes: decryption memory stays at the small-file level", [0u64, 1, 70_000, 1 << 20, 64 << 20].iter().flat_map(|&tail| [Mode::Key, Mode::Pass].map(move |mode| TailCase { tail, mode, seed: tail + 7 })).collect(), check_tail);
     let pm = if ctx.quick() { 64 } else { 1024 };
     ctx.sse_vec("process_peak_rss", &format!("the binary on a sparse {} MiB file vs a 1 MiB file, both modes: peak RSS (GNU time) must not grow", pm), vec![ProcCase { mib: pm, pass_mode: false }, ProcCase { mib: pm, pass_mode: true }], check_process);
+    ctx.sse_vec("process_read_ahead", "password encrypt / decrypt of an 8 MiB regular file with stdout a pipe nobody drains: input position (procfs) once the tool is blocked", vec![ReadAhead { decrypt: false }, ReadAhead { decrypt: true }], check_read_ahead);
     if !ctx.quick() { ctx.sse_vec("five_gib", "one 5 GiB stream (crosses 2^32 bytes and 65536 chunks)", vec![Case { size: 5 << 30, mode: Mode::Key, seed: 5, read_var: 0 }], check); }
     let b = BASELINE.lock().unwrap(); ctx.put("baseline_peak_256KiB", serde_json::json!(b.iter().map(|(m, e, d)| serde_json::json!({"mode": format!("{:?}", m), "encrypt_peak": e, "decrypt_peak": d})).collect::<Vec<_>>()));
 }
